@@ -365,6 +365,28 @@ CLI_BAD = [["--lat", "abc", "--long", "4"], ["--lat", "52"], ["--long", "4"], ["
            ["--lat", "", "--long", ""], ["--lat", "52", "--long", "4", "--no-such-option"], ["--lat", "52", "--long", "4", "--locations", ",,"]]
 
 
+def cli_pty_event(bindir, args, tag):
+    """an invalid option value that is only looked at after the connection is up (a file to read): run in a pty against a
+    live feed, because what matters is also the state the terminal is left in"""
+    srv = apps.FeedServer([{"segments": [], "interactive": True}])
+    srv.start()
+    rd = apps.Radar(bindir, srv.port, ["--lat", str(RXF[0]), "--long", str(RXF[1])] + list(args))
+    try:
+        status = rd.wait_exit(4)
+        if status is None:
+            rd.send(apps.KEYS["q"])
+            rd.wait_exit(3)
+        out = bytes(rd.out)
+        modes = apps.modes_at_end(rd.out)
+        return {"ev": "cli", "args": list(args), "invalid": 1, "exit": status if status is not None else -1,
+                "panic": 1 if b"panicked" in out else 0, "stderr": tag,
+                "termios_before": apps.termios_summary(rd.termios_before), "termios_after": apps.termios_summary(rd.termios_after()),
+                "mouse_left_on": max([modes.get(x, 0) for x in (1000, 1002, 1003, 1006, 1015)])}
+    finally:
+        srv.stop()
+        rd.cleanup()
+
+
 def cli_event(bindir, args):
     r = subprocess.run([os.path.join(bindir, "radar")] + args + ["--log-folder", "/tmp/radar-cli-logs"], stdin=subprocess.DEVNULL,
                        stdout=subprocess.PIPE, stderr=subprocess.PIPE, timeout=20)
@@ -405,6 +427,12 @@ def run(prop, tier, seed, rep):
     events.append({"ev": "session_start", "tag": "cli", "rx": {"lat": 0, "lon": 0}, "scale9": 0})
     for a in CLI_BAD:
         events.append(cli_event(bindir, a))
+    # option values naming files: a missing file, a file that is not the expected table
+    bad_csv = os.path.join(core.BUILD, "work", "not_airports.csv")
+    os.makedirs(os.path.dirname(bad_csv), exist_ok=True)
+    open(bad_csv, "w").write("icao,iata,name\nXX,YY\n")
+    for a, tag in ((["--airports", "/nonexistent/airports.csv"], "airports-missing"), (["--airports", bad_csv], "airports-malformed")):
+        events.append(cli_pty_event(bindir, a, tag))
     subprocess.run(["rm", "-rf", "/tmp/radar-cli-logs"])
     starts = [i for i, e in enumerate(events) if e["ev"] == "session_start"]
     verdicts, st, tr = core.validate_events("Trace_UI", events, prop, shards=8, boundary=lambda e: e["ev"] == "session_start")
